@@ -320,17 +320,31 @@ class StepBudget:
 _budget = None
 
 
+def kio_modules(prefixes=("kio.serial", "kio.records", "kio.static")):
+    """Every loaded module of the given kio sub-packages (found by name, so that a reorganisation of kio's
+    private modules does not break the harness)."""
+    import importlib
+    import pkgutil
+
+    out = []
+    for pref in prefixes:
+        try:
+            pkg = importlib.import_module(pref)
+        except ImportError:
+            continue
+        out.append(pkg)
+        for info in pkgutil.iter_modules(getattr(pkg, "__path__", [])):
+            try:
+                out.append(importlib.import_module(f"{pref}.{info.name}"))
+            except Exception:  # noqa: BLE001 - a module that does not import is somebody else's finding
+                pass
+    return out
+
+
 def decode_budget():
     """The shared budget over kio's decoding modules (installed once per process)."""
     global _budget
     if _budget is None:
-        import kio.records.readers
-        import kio.serial._parse
-        import kio.serial.readers
-        import kio.static._phantom
-        import kio.static.primitive
-
-        _budget = StepBudget([kio.serial._parse, kio.serial.readers, kio.records.readers,
-                              kio.static._phantom, kio.static.primitive])
+        _budget = StepBudget(kio_modules())
         _budget.install()
     return _budget
